@@ -76,7 +76,11 @@ func (h *harness) portCase(g *portGroup, host, port string, shape []string, bump
 	if port != "" {
 		h.r.Distinct("roundtrip_ports", port)
 	}
-	h.lawDID(ds, us, "port", true, bump)
+	feature := "port"
+	if docURL {
+		feature = "did-json-segment" // same (known) behaviour as that feature of the generator: keep its key
+	}
+	h.lawDID(ds, us, feature, true, bump)
 	if !docURL {
 		// (a URL ending in /did.json is the document URL, see roundTrip)
 		h.lawURL(us, ds, "port", true, bump)
